@@ -406,11 +406,12 @@ def co_simulate(facts, c, s, cfg, text, ports, names, ink, outk, depth, seed, b,
     ws = [cfg.width[k] for k in ink]
     space = 1 << sum(ws)
     rnd = random.Random(seed + space)
-    if space ** depth <= 4096:
+    cap = 4096 if depth >= 4 else 500
+    if space ** depth <= cap:
         seqs = itertools.product(itertools.product(*[range(1 << w) for w in ws]), repeat=depth)
     else:
         def gen():
-            for _ in range(600):
+            for _ in range(cap if space ** depth <= 65536 else 600):
                 yield tuple(tuple(rnd.choice((0, 1, (1 << w) - 1, rnd.randrange(1 << w))) for w in ws) for _ in range(depth))
         seqs = gen()
     nseq = 0
